@@ -81,9 +81,12 @@ class SetV:
     def __init__(self, has, kkind='int', ne=None):
         self.has, self.kkind = has, kkind
         self._ne = ne if ne is not None else fresh('nonempty', B)
+        self._len = fresh('len')
 
     def copy(self):
-        return SetV(self.has, self.kkind, self._ne)
+        c = SetV(self.has, self.kkind, self._ne)
+        c._len = self._len
+        return c
 
 
 class MgrV:
@@ -167,6 +170,12 @@ def pred_at_abs(ex, pred, var, y, p, saved):
     finally:
         p.env.clear()
         p.env.update(saved)
+
+
+PAIR = z3.Function('PAIR', I, I, I)
+APP = z3.Function('APP', I, I, I, I, I)
+SINGLETON = z3.Function('SINGLETON', I, I)
+APPEND = z3.Function('APPEND', I, I, I)
 
 
 class Raise:
@@ -260,10 +269,19 @@ class Exec:
         else:
             p.pc.append(fact)
 
+    def code_of(self, v, p):
+        """integer code of an opaque value stored in a list (grammar actions): tuples through an uninterpreted pairing"""
+        if isinstance(v, TupV) and len(v.items) == 2:
+            return PAIR(self.code_of(v.items[0], p), self.code_of(v.items[1], p))
+        if isinstance(v, ListV):
+            return v.code if hasattr(v, 'code') else zint(v, self, p)
+        return zint(v, self, p)
+
     def refresh_ne(self, v, p):
         """new truth-value ghost of a set after a removal: a set with a member is non-empty (meaning of truthiness)"""
         from z3 import ForAll
         v._ne = fresh('nonempty', B)
+        v._len = fresh('len')
         x = Int(f'x!ne{next(M._cnt)}')
         p.pc.append(ForAll([x], Implies(v.has[x], v._ne), patterns=[v.has[x]]))
 
@@ -332,6 +350,11 @@ class Exec:
             self.oblige(p, f'unreachable:UnboundLocalError({e.id})@{e.lineno}', BoolVal(False), e.lineno)
             raise PathDead()
         raise Unsupported(f'name {e.id}@{e.lineno}')
+
+    def ev_List(self, e, p):
+        if len(e.elts) == 1:
+            return IntV(SINGLETON(self.code_of(self.ev(e.elts[0], p), p)))
+        raise Unsupported(f'list literal@{e.lineno}')
 
     def ev_Tuple(self, e, p):
         return TupV([self.ev(x, p) for x in e.elts])
@@ -666,6 +689,9 @@ class Exec:
             var, valvar = gen.target.elts[0].id, gen.target.elts[1].id
         else:
             raise Unsupported(f'comprehension target@{e.lineno}')
+        if isinstance(it, ast.Name) and isinstance(p.env.get(it.id), SetV) and p.env[it.id].kkind == 'int' and val_expr is None \
+                and valvar is None and not gen.ifs:
+            return self.names_of_levels(e, p, key_expr, var, p.env[it.id])
         if isinstance(it, ast.Call) and isinstance(it.func, ast.Attribute) and it.func.attr == 'items' and not it.args:
             src = self.ev(it.func.value, p)
             if not (isinstance(src, DictV) and src.kkind == 'name') or valvar is None:
@@ -755,6 +781,38 @@ class Exec:
         p.pc.append(ForAll([L], Implies(has[L], val[L] == vz), patterns=[has[L], val[L]]))
         self.assumed_builtins.add('set/dict comprehension over declared names = image under the name<->level bijection (W8)')
         return DictV(has, val, vk, 'int')
+
+    def names_of_levels(self, e, p, elt, var, src):
+        """`{NAME_AT(i) for i in levels}`: the set of names of a set of levels (image under the W8 bijection)"""
+        from z3 import ForAll, Int
+        L = Int(f'L!{next(M._cnt)}')
+        saved = dict(p.env)
+        sq = getattr(self, 'qmode', None)
+        has = fresh('cmp_nhas', ArraySort(M.Name, B))
+        hasL = fresh('cmp_guard', ArraySort(I, B))
+        p.env[var] = IntV(L)
+        self.qmode = ([L], [src.has[L]], src.has[L])
+        nside = len(self.side_paths)
+        try:
+            nt = self.ev(elt, p)
+            for q in self.side_paths[nside:]:
+                self.oblige(p, f'element-cannot-raise:{q.exc}@{e.lineno}', Not(q.when), e.lineno)
+            del self.side_paths[nside:]
+        finally:
+            self.qmode = sq
+            p.env.clear(); p.env.update(saved)
+        Sk = None
+        if isinstance(nt, NameV) and z3.is_select(nt.z) and nt.z.arg(1).eq(L):
+            for S in p.mgrs.values():
+                if nt.z.arg(0).eq(S.l2v):
+                    Sk = S
+        if Sk is None:
+            raise Unsupported(f'comprehension element is not a name lookup@{e.lineno}')
+        n = Const(f'n!{next(M._cnt)}', M.Name)
+        p.pc.append(ForAll([n], has[n] == And(Sk.vin[n], src.has[Sk.v2l[n]]), patterns=[has[n]]))
+        self.assumed_builtins.add('set/dict comprehension over declared names = image under the name<->level bijection (W8)')
+        r = SetV(has, 'name')
+        return r
 
     # ------------------------------------------------------------------ calls
     def ev_Call(self, e, p):
@@ -868,6 +926,15 @@ class Exec:
         if isinstance(v, DictV):
             # ghost cardinality; zero exactly when empty
             self.assume(p, (v._len == 0) == Not(nonempty(v)))
+            return IntV(v._len)
+        if isinstance(v, SetV) and v.kkind == 'int':
+            from z3 import ForAll
+            l1, l2 = Int(f'l!card{next(M._cnt)}'), Int(f'l!card{next(M._cnt)}')
+            # ASSUMED fact about finite sets (pigeonhole): a set all of whose elements are naturals below its cardinality
+            # is the whole initial segment
+            self.assume(p, Implies(ForAll([l1], Implies(v.has[l1], And(0 <= l1, l1 < v._len)), patterns=[v.has[l1]]),
+                                   ForAll([l2], Implies(And(0 <= l2, l2 < v._len), v.has[l2]), patterns=[v.has[l2]])))
+            self.assumed_builtins.add('cardinality (pigeonhole): a set of naturals all below its len() contains every natural below its len()')
             return IntV(v._len)
         raise Unsupported(f'len({ast.unparse(a)})@{e.lineno}')
 
@@ -1097,6 +1164,10 @@ class Exec:
         except Unsupported:
             return NotImplemented
         args = [self.ev(a, p) for a in e.args]
+        if isinstance(v, IntV) and meth == 'append' and len(args) == 1 and isinstance(tgt, ast.Name):
+            # opaque list value (grammar actions): u.append(x) re-binds the name to APPEND(u, x)
+            p.env[tgt.id] = IntV(APPEND(v.z, self.code_of(args[0], p)))
+            return NONE()
         if isinstance(v, DictV) and meth == 'items' and not args:
             return ObjV('items', dict(d=v))
         if isinstance(v, DictV) and meth == 'get' and len(args) == 2:
@@ -1134,6 +1205,7 @@ class Exec:
             kz = args[0].z if v.kkind == 'name' else zint(args[0], self, p)
             v.has = Store(v.has, self.name_it(p, kz, 'sk'), True)
             v._ne = BoolVal(True)
+            v._len = fresh('len')
             return NONE()
         return NotImplemented
 
@@ -1507,6 +1579,11 @@ class Exec:
                     self.write_field(p.mgrs[mv.key], tgt.value.attr, self.ev(tgt.slice, p), val, p, line)
                     return
             base = self.ev(tgt.value, p)
+            if isinstance(base, ListV):
+                kz = zint(self.ev(tgt.slice, p), self, p)
+                self.oblige(p, f'indexerror:{ast.unparse(tgt.value)}@{line}', And(0 <= kz, kz < base.n), line)
+                base.arr = Store(base.arr, kz, self.code_of(val, p))
+                return
             if isinstance(base, DictV):
                 key = self.ev(tgt.slice, p)
                 kz = key.z if base.kkind == 'name' else (self.as_fork(key, p) if base.kkind == 'fork' else zint(key, self, p))
